@@ -318,35 +318,9 @@ fn stco_try_from_upto3() {
     std::mem::forget(c);
 }
 
-// ---------------------------------------------------------------- metadata year item (C18): discharges the assumed decimal_u32 contract, bounded
-/// reference: optional '+', at least one ASCII digit, no overflow (what prelude/10_std.rs::decimal_u32 states)
-fn decimal_ref(b: &[u8]) -> Option<u32> {
-    let digits = if !b.is_empty() && b[0] == b'+' { &b[1..] } else { b };
-    if digits.is_empty() { return None; }
-    let mut v: u64 = 0;
-    let mut i = 0;
-    while i < digits.len() {
-        let c = digits[i];
-        if c < b'0' || c > b'9' { return None; }
-        v = v * 10 + (c - b'0') as u64;
-        if v > u32::MAX as u64 { return None; }
-        i += 1;
-    }
-    Some(v as u32)
-}
-
-#[kani::proof]
-#[kani::unwind(5)]
-fn item_to_u32_text_upto2() {
-    let len: usize = kani::any();
-    kani::assume(len <= 2);
-    let raw: [u8; 3] = kani::any();
-    kani::assume(raw[0] < 128 && raw[1] < 128 && raw[2] < 128); // ASCII: the lossy decoder is the identity there
-    let item = crate::mp4box::ilst::IlstItemBox { data: crate::mp4box::data::DataBox { data: raw[..len].to_vec(), data_type: DataType::Text } };
-    let got = crate::mp4box::ilst::item_to_u32(&item);
-    assert!(got == decimal_ref(&raw[..len]));
-}
-
+// ---------------------------------------------------------------- metadata year item (C18), binary form
+// (a harness for the text form -- from_utf8_lossy + str::parse under CBMC -- did not finish within 10 minutes even for two
+//  bytes; `parse::<u32>` therefore stays an assumed std contract, see prelude/20_outline.rs)
 #[kani::proof]
 #[kani::unwind(8)]
 fn item_to_u32_binary_all() {
